@@ -414,9 +414,11 @@ class CachedFcn(UserFcn):
             and all(same(kwds[k], self.lastKwds[k]) for k in kwds)
         ):
             return self.lastReturn
+        # evaluate first: a call that raises must leave the cache describing the last successful call
+        result = super().__call__(*args, **kwds)
         self.lastArgs = args
         self.lastKwds = kwds
-        self.lastReturn = super().__call__(*args, **kwds)
+        self.lastReturn = result
         return self.lastReturn
 
     def __repr__(self):
